@@ -482,4 +482,58 @@ ScaleContract(e) ==
     Verdict(Fl("succeeds_on_deep_or_shared_input", e.res = "ok") \o
             Fl("work_linear_in_dag_size", e.res # "ok" \/ e.callbacks <= e.K * e.nodes + e.slack), <<>>, -1)
 
+\* ------------------------------------------------------------------ C14 / C15
+(***************************************************************************)
+(* Equality of results up to the order of commutative arguments (ACEq) and  *)
+(* a bijection between the fresh symbol names of the two sides.             *)
+(***************************************************************************)
+CommutativeOps == {"and", "or", "plus", "times"}
+
+RECURSIVE ACEq(_, _)
+ACEq(a, b) ==
+    /\ a.op = b.op /\ a.n = b.n /\ a.ty = b.ty /\ a.i = b.i /\ a.s = b.s
+    /\ Len(a.a) = Len(b.a)
+    /\ SeqSet(a.bv) = SeqSet(b.bv)              \* the order of bound variables is immaterial
+    /\ IF a.op \in CommutativeOps
+       THEN \* ACEq is an equivalence: the two argument multisets agree iff every class has the same size on both sides
+            \A i \in 1..Len(a.a) :
+                Cardinality({j \in 1..Len(b.a) : ACEq(a.a[i], b.a[j])}) =
+                Cardinality({j \in 1..Len(a.a) : ACEq(a.a[i], a.a[j])})
+       ELSE \A j \in 1..Len(a.a) : ACEq(a.a[j], b.a[j])
+
+RECURSIVE RenameSyms(_, _)
+RenameSyms(t, m) ==
+    LET R(nm) == IF nm \in DOMAIN m THEN m[nm] ELSE nm
+    IN  [t EXCEPT !.n = IF t.op \in {"symbol", "function"} THEN R(t.n) ELSE t.n,
+                  !.bv = [j \in 1..Len(t.bv) |-> [n |-> R(t.bv[j].n), ty |-> t.bv[j].ty]],
+                  !.a = [j \in 1..Len(t.a) |-> RenameSyms(t.a[j], m)]]
+
+Bijections(A, B) == IF Cardinality(A) # Cardinality(B) THEN {}
+                    ELSE {f \in [A -> B] : \A x, y \in A : x # y => f[x] # f[y]}
+
+(* a result is [k, t, ts, s, fresh]: k = "term" (t), "terms" (ts, a set), "text" / "err" / "val" (s) *)
+ResultEq(ra, rb) ==
+    /\ ra.k = rb.k
+    /\ CASE ra.k = "term" ->
+              \E m \in Bijections(SeqSet(ra.fresh), SeqSet(rb.fresh)) : ACEq(RenameSyms(ra.t, m), rb.t)
+         [] ra.k = "terms" ->
+              /\ Len(ra.ts) = Len(rb.ts)
+              /\ \E m \in Bijections(SeqSet(ra.fresh), SeqSet(rb.fresh)) :
+                    \A i \in 1..Len(ra.ts) :
+                        Cardinality({j \in 1..Len(rb.ts) : ACEq(RenameSyms(ra.ts[i], m), rb.ts[j])}) =
+                        Cardinality({j \in 1..Len(ra.ts) : ACEq(ra.ts[i], ra.ts[j])})
+         [] OTHER -> ra.s = rb.s
+
+(* twin run: pa[i] / pb[i] = result of probe i on the environment that saw the history / on its twin;
+   rep[i] = TRUE iff repeating probe i on A returned the very same object (only asked where the
+   probe introduces no fresh symbol and returns a formula) *)
+TwinContract(e) ==
+    LET n == Len(e.pa)
+        diff == {i \in 1..n : ~ResultEq(e.pa[i], e.pb[i])}
+        norep == {i \in 1..n : e.rep[i] = 0}
+    IN  Verdict(Fl("result_independent_of_history", diff = {}) \o
+                Fl("repeated_call_returns_same_object", norep = {}), <<>>,
+                IF diff # {} THEN CHOOSE i \in diff : \A k \in diff : i <= k
+                ELSE IF norep # {} THEN CHOOSE i \in norep : TRUE ELSE -1)
+
 =============================================================================
